@@ -69,6 +69,7 @@ func cmdFn(args []string) {
 	fs.Parse(args)
 	e := load(*repo, *verif)
 	e.Verbose = *verbose
+	e.LeanQuant = os.Getenv("GOVC_LEANQ") != ""
 	var keys []string
 	for k, c := range e.Contracts.ByKey {
 		if c.Kind != "func" && c.Kind != "lemma" {
